@@ -74,6 +74,22 @@ def run(ctx, broken):
             elif oi != om:
                 for d in expand_diff(oi, om, 12):
                     res["disagreements"].append({"what": "table %s U+%04X: implementation %s, model %s (fields: G=fold-c,is_upper,normalize-c; U/A<paths><ignore_case><normalize>=norm-c,class_norm-c,class_norm class,char_class)" % (d["table"], d["c"], d["impl"], d["model"]), **d})
+    # ---- every site of the matcher that normalises a haystack character sees what Char::normalize sees ----
+    rcs, outs, errs_ = vlib.run([hm, "sites-probe", "0", "1114112"], timeout=600)[:3]
+    ncalls = 0
+    nsite = 0
+    for l in outs.splitlines():
+        if l.startswith("# calls"):
+            ncalls = int(l.split()[2])
+        elif l.strip():
+            cfgn, algo, variant, shape, hr, nr, c, ncp, got = l.split()
+            nsite += 1
+            if nsite <= 150:
+                res["failures"].append({"class": "sites", "c": int(c), "what": "U+%04X: %s (%s variant) on the haystack shape `%s` [%s] with the needle U+%04X [%s] (= Char::normalize of the character) under cfg paths,ignore_case,normalize=%s answers %s: this site does not see the normalised character" % (
+                    int(c), {"F": "fuzzy_match", "G": "fuzzy_match_greedy", "S": "substring_match", "P": "prefix_match", "O": "postfix_match", "E": "exact_match"}[algo], variant, shape, hr, int(ncp), nr, cfgn, "match" if got == "1" else "no match")})
+    if rcs != 0:
+        res["disagreements"].append({"what": "sites probe crashed: " + errs_[-300:]})
+    res["extra"]["sites_probe_calls"] = ncalls
     # ---- oracle on the implementation's own output -------------------------------------------------
     ref = json.load(open(os.path.join(vlib.COQ, "Gen", "unicode_ref.json")))
     reffold = {a: b for a, b in ref["fold"]}
@@ -144,16 +160,19 @@ def run(ctx, broken):
             if k != kc:
                 for c in range(s, min(l, s + 50) + 1):
                     fail("coherent", c, "cfg %s: class from char_class_and_normalize (%d) differs from char_class (%d)" % (tag[1:], k, kc))
-    res["failures"] = fails
+    res["failures"] = res["failures"] + fails
     res["evaluations"] = scalars * (3 + 8 * 4) + 128 * 8 * 4
     res["distinct_nontrivial"] = len(nontrivial)
     res["exhaustive"] = True
     res["rule"] = ("exhaustive: every Unicode scalar value (%d) through to_lower_case, is_upper_case, normalize and, for each of 8 configurations "
                    "(default/path x ignore_case x normalize), Char::normalize, char_class_and_normalize, char_class of both impls; implementation "
                    "output compared run-by-run with the extracted Coq model and checked against the reference data. A scalar is non-trivial when a "
-                   "map changes it or its class is not NonWord; counted on the implementation's output." % scalars)
+                   "map changes it or its class is not NonWord; counted on the implementation's output. Sites probe: for every scalar with a non-trivial "
+                   "normalisation or a case (and all below U+0250), under each configuration, the character alone / between fillers / doubled / twice with gaps "
+                   "is matched against its own normalised form (one- and two-character needles) through all twelve matcher entry points in every representation "
+                   "combination: the decision must be the one Char::normalize implies at every site (prefilter, scoring, comparing)." % scalars)
     res["samples"] = [{"table": t, "run": list(r)} for t in ("G", "U011", "A010") for r in runs.get(t, [])[40:43]]
-    res["extra"] = {"scalars": scalars, "reference": {"fold_pairs": len(reffold), "nfkd_rows": len(ref["nfkd"])}}
+    res["extra"] = {"sites_probe_calls": res["extra"].get("sites_probe_calls", 0), "scalars": scalars, "reference": {"fold_pairs": len(reffold), "nfkd_rows": len(ref["nfkd"])}}
     return res
 
 
